@@ -55,7 +55,7 @@ var backendReasons = map[string][]string{
 	"cmpctblock": {"BadCmpct"},
 	"block":      {"BadBlock", "BadUnreqBlock"},
 	"addr":       {"BadAdrFuture", "AddrFlood"},
-	"getdata":    {"BadGetCmpctBlk", "GetDataTooBigA", "SendBufferOverflow"},
+	"getdata":    {"BadGetCmpctBlk", "SendBufferOverflow"},
 	"blocktxn":   {"BadBlkTxnErrBip", "BadBlkTxnNoCOL", "BlkTxnErrMissing"},
 	"getaddr":    {"BadSecondGetAddr"},
 }
@@ -422,6 +422,9 @@ func (h *Harness) deliver(cs Case, run bool) bool {
 	//          the ban SendBufferOverflow, or nothing queued at all (no model of the send path: the
 	//          predicate is evaluated on the real connection state)
 	if cs.slow() {
+		if cs.Cmd == "getdata" && !cs.has("nover") && cs.Rep == 0 && !h.pendingVerdict(cs, o, replay) {
+			return true
+		}
 		h.slowVerdict(cs, o, replay)
 		return true
 	}
@@ -505,7 +508,12 @@ func (h *Harness) deliver(cs Case, run bool) bool {
 	if run && s.ro.Encrypted && !cs.has("trusted") {
 		auth = "0" // the key exchange of a peer whose key is not listed clears Authorized (ver.go AuthRvcd)
 	}
-	req := fmt.Sprintf("h 1 %s %d %s %s %s %s", cs.Cmd, envNtx, authGot, auth, trusted, vlib.Hex(pl))
+	ours := "0"
+	if !run && cs.Cmd == "getmpdone" && h.rn.lastOurs {
+		ours = "1" // (direct stream only: the Run stream cannot look into the connection between two messages)
+		r.Hit("getmpdone:ticket-ours")
+	}
+	req := fmt.Sprintf("h 1 %s %d %s %s %s -1 %s %s", cs.Cmd, envNtx, authGot, auth, trusted, ours, vlib.Hex(pl))
 	m := parseModel(h.o.MustAsk(req))
 	replay["model"] = m.RawRep
 	if !run {
@@ -563,6 +571,64 @@ func (h *Harness) deliver(cs Case, run bool) bool {
 			fail(why)
 			return true
 		}
+	}
+	r.TieOK()
+	return true
+}
+
+// pendingVerdict: getdata to a connection whose send buffer is being filled (direct stream). The model's
+// ProcessGetData takes the number of bytes an earlier, postponed request left in c.unfinished_getdata
+// (Model/NetParse.lean processGetData `pending`): the new entries are appended, or the peer is banned
+// GetDataTooBigA when the two together pass 36*50000 bytes. Without a pending request and with the buffer over
+// half full the real handler postpones the whole request at its first entry (not modelled: checked here directly).
+// false = a mismatch was reported.
+func (h *Harness) pendingVerdict(cs Case, o Obs, replay map[string]interface{}) bool {
+	r := h.r
+	p := h.rn.lastPending
+	st := h.rn.lastState
+	pl := cs.payload()
+	m := parseModel(h.o.MustAsk(fmt.Sprintf("h 1 getdata -1 0 0 0 %d 0 %s", p, vlib.Hex(pl))))
+	replay["model"] = m.RawRep
+	replay["pending_before"] = p
+	fail := func(why string) bool {
+		r.TieFail("tie:getdata-pending:"+m.Kind+":"+m.Tag, fmt.Sprintf("getdata with %d bytes of postponed requests pending: %s (model: %s; real: ban=%q pending afterwards=%d)", p, why, clip(m.RawRep), o.Ban, st.GetdataPending), replay)
+		return false
+	}
+	r.Hit("model:pending:" + m.Kind + ":" + m.Tag)
+	switch {
+	case m.Kind == "bad" || m.RawRep == "bad-op":
+		r.TieFail("oracle:getdata", "oracle refused the request", replay)
+		return false
+	case o.Ban == "SendBufferOverflow":
+		return true // the send path decided (slowVerdict)
+	case m.Kind == "reject":
+		if o.Ban != m.Tag {
+			return fail("reject reason differs")
+		}
+	case m.Kind == "ok" && m.Tag == "getdata-appended":
+		if o.Ban != "" || len(m.Nums) != 1 || uint64(st.GetdataPending) != m.Nums[0] {
+			return fail("the request was not appended to the pending one")
+		}
+	case m.Kind == "ok" && m.Tag == "getdata-noop":
+		want := p
+		if want < 0 {
+			want = 0
+		}
+		if o.Ban != "" || st.GetdataPending != want {
+			return fail("an undecodable count changed something")
+		}
+	case m.Kind == "ok" && m.Tag == "getdata" && p < 0:
+		// no pending request: the loop runs; with the buffer over half full already it stops before its first entry
+		if fill := cs.sbfill(); fill > network.SendBufSize/2 && len(cs.Seq) == 0 && len(m.Nums) > 0 && m.Nums[0] > 0 {
+			if o.Ban != "" || uint64(st.GetdataPending) != 36*m.Nums[0] {
+				return fail(fmt.Sprintf("send buffer over half full (%d bytes): the whole request should have been postponed", fill))
+			}
+			r.Hit("slow:getdata-postponed")
+		}
+	case m.Kind == "panic":
+		return fail("model panics, real handler does not")
+	default:
+		return fail("unexpected model answer")
 	}
 	r.TieOK()
 	return true
@@ -715,6 +781,15 @@ func (h *Harness) compareFields(cs Case, s *stream, m Model) string {
 			return ""
 		}
 	case "blocktxn":
+	case "getmpdone":
+		if m.Tag == "getmpdone" && len(m.Nums) == 1 {
+			switch {
+			case m.Nums[0] == 0 && len(c.GetMP) != 0:
+				return "getmpdone(no more) from the ticket's holder must end the getmp exchange (request still pending)"
+			case m.Nums[0] == 1 && !(len(c.GetMP) == 1 && in0(o.Sent, "getmp:")):
+				return "getmpdone(more) from the ticket's holder must send the next getmp and keep the request pending"
+			}
+		}
 	case "authack":
 		switch m.Tag {
 		case "authack-unsigned":
@@ -949,6 +1024,9 @@ func main() {
 	for i := 0; i < r.N(1, 3); i++ {
 		h.One(Case{Cmd: "@conc", Note: "conc", Conc: &ConcSpec{Seed: gen.g.U64(), Rounds: r.N(200000, 1500000)}})
 	}
+	// 6b. one connection's thread working through every handler (all generators + directed histories) against a
+	//     GetStats loop, in a child process (stats.go)
+	h.One(Case{Cmd: "@conc", Note: "conc:stats", Conc: &ConcSpec{Seed: gen.g.U64(), Rounds: r.N(6000, 60000), Mode: "stats"}})
 	lap("conc")
 	// 7. library entry points
 	libFuzz(r, e, r.Rng.Fork(), r.N(4000, 80000))
@@ -1075,7 +1153,7 @@ func (h *Harness) oldWitnesses() {
 		{"getblocktxn", H(cat(make([]byte, 32), vint(1), vintForm(1<<63, 9))), "panic", "-", 5},
 	}
 	for _, x := range ws {
-		req := fmt.Sprintf("h 0 %s %d 0 0 0 %s", x.cmd, x.ntx, x.pl)
+		req := fmt.Sprintf("h 0 %s %d 0 0 0 -1 0 %s", x.cmd, x.ntx, x.pl)
 		m := parseModel(h.o.MustAsk(req))
 		if m.Kind != x.wantKind || m.Locks != x.wantLocks {
 			h.r.TieFail("oldmodel:"+x.cmd, "pre-fix model no longer reproduces the witness: "+m.RawRep, map[string]interface{}{"cmd": x.cmd, "pl": x.pl})
